@@ -199,6 +199,20 @@ def run(m: Model, r: Report, tier: str) -> None:
     ve = [f for f in m.require_class(f"{PARSER}.ArgumentParser").methods.values() if "extra_defaults[model][argument][0]" in ast.unparse(f.node)]
     r.check(len(ve) == 1 and "default of {argument} from" in ast.unparse(ve[0].node), "R6", f"{PARSER}.ArgumentParser#names-source",
             "validation errors of env/file defaults must name their source", loc=ve[0].loc if ve else "")
+    if len(ve) == 1:
+        src_ifs = [n for n in ast.walk(ve[0].node) if isinstance(n, ast.If) and "extra_defaults" in ast.unparse(n.test)
+                   and any("extra_defaults" in ast.unparse(x) and "[0]" in ast.unparse(x) for b_ in n.body for x in ast.walk(b_) if isinstance(x, ast.Subscript))]
+        okv = False
+        if len(src_ifs) == 1:
+            conj = src_ifs[0].test.values if isinstance(src_ifs[0].test, ast.BoolOp) and isinstance(src_ifs[0].test.op, ast.And) else [src_ifs[0].test]
+            for c in conj:
+                if isinstance(c, ast.Compare) and len(c.ops) == 1 and isinstance(c.ops[0], ast.Eq):
+                    sides = {m.mtext(ve[0], c.left), m.mtext(ve[0], c.comparators[0])}
+                    if any(x.endswith("[1]") and "extra_defaults" in x for x in sides) and any(x.endswith("['input']") for x in sides):
+                        okv = True
+        r.check(okv, "R6", f"{ve[0].qualname}#blames-only-the-failing-source",
+                "the env/file source is named although the failing input is not compared with the env/file default: an invalid command-line value is then "
+                "reported as coming from the environment variable / config file whenever the option also has a (valid) value there", loc=ve[0].loc)
     r.check("f'{source} ({INFO.config_section}:{NAME})'" in m.mtext(fc, None, rc) and "f'environment variable ({KEY})'" in m.mtext(fe, None, re_), "R6",
             f"{gb.qualname}#source-labels", "each extra default must carry a label of its source", loc=gb.loc)
 
